@@ -48,7 +48,7 @@ def walk_stmts(stmts, valuation, norm, env=None, stop_pred=None):
     return walk(f, valuation, norm, env=env, stop_pred=stop_pred)
 
 
-def walk(fn, valuation: Dict[str, bool], norm: Callable[[ast.AST], str], max_steps=400, env=None, stop_pred=None):
+def walk(fn, valuation: Dict[str, bool], norm: Callable[[ast.AST], str], max_steps=400, env=None, stop_pred=None, skip_loops=False):
     """follow the unique path selected by `valuation` (atom text -> truth). Returns ('return', expr) | ('raise', node) | ('fall', None) |
     ('loop', (env, node)) | ('unknown', reason)"""
     g = CFG(fn)
@@ -56,6 +56,7 @@ def walk(fn, valuation: Dict[str, bool], norm: Callable[[ast.AST], str], max_ste
     node = g.entry
     steps = 0
     visited = set()
+    loops = []          # (bindings before the loop, the For statement) of every `for` stepped over (skip_loops)
     while steps < max_steps:
         steps += 1
         if node.id == g.exit.id:
@@ -71,7 +72,7 @@ def walk(fn, valuation: Dict[str, bool], norm: Callable[[ast.AST], str], max_ste
             core, flip = _strip_not(a)
             txt = norm(_Sub({}).visit(clone(core)))
             # atoms are stated on the function's parameters; a local holding such a test is expanded through env
-            etxt = norm(_Sub(env).visit(clone(core)))
+            etxt = norm(_fold_ifexp(_Sub(env).visit(clone(core)), valuation, norm))
             val = None
             if isinstance(core, ast.Constant):
                 val = bool(core.value)          # `if False:` / `if 1:` need no hypothesis
@@ -96,18 +97,31 @@ def walk(fn, valuation: Dict[str, bool], norm: Callable[[ast.AST], str], max_ste
             r_ = _fold_atoms(_fold_ifexp(_Sub(env).visit(clone(v)), valuation, norm), valuation, norm)
             try:
                 r_._env, r_._raw = dict(env), v        # for callers that need the attribute stores made on the returned object
+                r_._loops = loops
             except Exception:
                 pass
             return ("return", r_)
         if node.kind in ("raisestmt", "raise"):
             return ("raise", a)
         if node.kind == "iter":
-            return ("loop", (dict(env), node))
+            if not skip_loops:
+                return ("loop", (dict(env), node))
+            # the loop is stepped over as one opaque statement: the names it binds are no longer known (they expand to themselves)
+            loops.append((dict(env), a))
+            for sub in ast.walk(a):
+                if isinstance(sub, ast.Name) and isinstance(sub.ctx, ast.Store):
+                    env.pop(sub.id, None)
+            nxt = [m for m, lab in succ if lab == "F"]
+            if len(nxt) != 1:
+                return ("unknown", "loop without a single exit")
+            visited.discard(node.id)
+            node = g.nodes[nxt[0]]
+            continue
         if a is not None and node.kind == "stmt":
             if isinstance(a, ast.FunctionDef):
                 env[a.name] = a            # a nested def binds its name to a callable (kept as the definition itself)
             elif isinstance(a, ast.Assign) and len(a.targets) == 1 and isinstance(a.targets[0], ast.Name):
-                env[a.targets[0].id] = _Sub(env).visit(clone(a.value))
+                env[a.targets[0].id] = _fold_ifexp(_Sub(env).visit(clone(a.value)), valuation, norm)
             elif isinstance(a, ast.Assign) and len(a.targets) == 1 and isinstance(a.targets[0], ast.Tuple) and isinstance(a.value, ast.Tuple) \
                     and len(a.targets[0].elts) == len(a.value.elts) and all(isinstance(t, ast.Name) for t in a.targets[0].elts):
                 vals = [_Sub(env).visit(clone(v)) for v in a.value.elts]
@@ -126,7 +140,7 @@ def walk(fn, valuation: Dict[str, bool], norm: Callable[[ast.AST], str], max_ste
                 pass
             elif isinstance(a, ast.Assign) and len(a.targets) == 1 and isinstance(a.targets[0], ast.Attribute) and isinstance(a.targets[0].value, ast.Name):
                 # attribute of an object held in a local: remembered under "local.attr" (what the returned object carries)
-                env[f"{a.targets[0].value.id}.{a.targets[0].attr}"] = _Sub(env).visit(clone(a.value))
+                env[f"{a.targets[0].value.id}.{a.targets[0].attr}"] = _fold_ifexp(_Sub(env).visit(clone(a.value)), valuation, norm)
             elif isinstance(a, ast.Assign):
                 pass          # other stores into attributes / subscripts do not change what the locals denote
             else:
@@ -245,7 +259,7 @@ def walk_all(fn, valuation, norm, project=None, limit=64):
     return outcomes
 
 
-def walk_paths(fn, valuation, norm, stop_pred=None, limit=64):
+def walk_paths(fn, valuation, norm, stop_pred=None, limit=64, skip_loops=False):
     """all paths compatible with `valuation` (tests it does not decide are followed both ways): list of the raw (kind, result) of walk()"""
     out = []
     pending = [dict(valuation)]
@@ -253,7 +267,7 @@ def walk_paths(fn, valuation, norm, stop_pred=None, limit=64):
     while pending and seen < limit:
         val = pending.pop()
         seen += 1
-        kind, res = walk(fn, val, norm, stop_pred=stop_pred)
+        kind, res = walk(fn, val, norm, stop_pred=stop_pred, skip_loops=skip_loops)
         if kind == "unknown" and isinstance(res, str) and res.startswith("test `") and res.endswith("` is not one of the atoms"):
             t = res[len("test `"):-len("` is not one of the atoms")]
             for b in (True, False):
